@@ -59,7 +59,39 @@ def modules_token(mods):
     return "modules" if desc == default else "mods:" + desc
 
 
+def run_special(job):
+    """small adapter histories used by C06 / C08: parameters set through set_params must reach the exported filter"""
+    import dataclasses as _dc
+    from sympy import Symbol as _S
+    out = {}
+    if job["kind"] == "set_then_decide":
+        dt, x = _S("dt"), _S("x")
+        from formak import ui as _ui
+        model = _ui.Model(dt=dt, state={x}, control=set(), state_model={x: x})
+        est = python.SklearnEKFAdapter.Create(model, {}, {"s": {"r": x}}, {"s": {"r": 1.0}}, {}, config=python.Config())
+        est.set_params(**job["sets"])
+        ekf = est.export_python()
+        st, cv = ekf.State(x=0.0), ekf.Covariance()
+        u = ekf.sensor_model(st, cv, sensor_key="s", sensor_reading=ekf.make_reading("s", r=float(job["z"])))
+        out = {"discarded": bool(u.state is st and u.covariance is cv), "state": float(u.state.data[0, 0]), "cov": float(u.covariance.data[0, 0]),
+               "exported_k": ekf.config.innovation_filtering, "exported_config": {f.name: (getattr(ekf.config, f.name) if f.name != "python_modules" else "modules") for f in _dc.fields(python.Config)}}
+    elif job["kind"] == "toggle_cse":
+        syms, model, sensors, pn, sn, cm = G.build(job["defn"], job.get("decl"))
+        cfg = python.Config(innovation_filtering=job.get("k"), max_dt_sec=0.2, common_subexpression_elimination=True)
+        est = python.SklearnEKFAdapter.Create(model, pn, sensors, sn, cm, config=cfg)
+        X = np.array(job["X"], dtype=float)
+        T1 = est.transform(X)
+        before = snapshot(est, None)
+        est.set_params(common_subexpression_elimination=False)
+        after = snapshot(est, None)
+        T2 = est.transform(X)
+        out = {"T_on": [[float(v) for v in row] for row in T1], "T_off": [[float(v) for v in row] for row in T2], "before": before, "after": after}
+    return out
+
+
 def run_job(job):
+    if job.get("kind"):
+        return run_special(job)
     defn = job["defn"]
     syms, model, sensors, pn, sn, cm = G.build(defn, job.get("decl"))
     # max_dt_sec belongs to the managed runtime's sub-stepping: the adapter's own fixed step must not depend on it
